@@ -209,6 +209,14 @@ def families(eng, tier, seed):
                 sep = sym_chars(eng, 1, "s")[0]
                 return lit(o) + [fill] * 3 + lit(i_) + [fill] * (k - 10) + [sep] + [fill] * 2 + lit(OPEN[i_]) + [fill] * 3 + lit(OPEN[o])
             fams.append(Family("nested-window-%s%s-k%d" % (o, i_, k), mk, make_run(None, None), witnesses=("copied",), on_panic=on_panic, target_prefixes=1))
+    # empty scopes inside scopes that are spread over several lines
+    for outer in ("(", "<", "{"):
+        for inner in ("()", "<>", "{}", "(())", "(<>)"):
+            for tail in (0, 34):
+                def mk(eng, outer=outer, inner=inner, tail=tail):
+                    fill = sym_chars(eng, 1, "f", nonspecial=True)[0]; sep = sym_chars(eng, 1, "s")[0]
+                    return lit(outer) + lit(inner) + lit(",") + [fill] * tail + [sep] + lit(inner) + lit(OPEN[outer])
+                fams.append(Family("empty-%s-in-%s-tail%d" % (inner, outer, tail), mk, make_run(None, None), witnesses=("copied",), on_panic=on_panic, target_prefixes=1))
     # deep nesting: d openers (symbolic choice among the three kinds, each forced multi-line or not by a filler), then closers
     D = BOUNDS[tier]["nesting depth <="]
     for d in list(range(1, D + 1, 1 if tier == "thorough" else 3)) + [D]:
